@@ -331,6 +331,27 @@ def run(tier, seed, scratch, t0):
     hashes = rt.extras.get("interleaving_hashes") or []
     _merge(res, rt, count_cases=True)
 
+    # ---- the same histories on a build with arithmetic-overflow checks and debug assertions (what `cargo build` / `cargo test`
+    # produce): a panic inside an extern "C" function aborts the caller's process, so an overflow that only wraps in a
+    # release build is a crash in this one
+    checked = {"built": False}
+    try:
+        c_single = sup.build("vh-ffi", "c19", flavor="checked")
+        checked["built"] = True
+    except sup.Broken as ex:
+        res.add_inconclusive("checked-build-failed")
+        res.notes.append(str(ex)[-600:])
+        c_single = None
+    if c_single:
+        rc = sup.Result(PROP)
+        sup.run_workers(rc, c_single, [], tier, seed, scratch, nshards=16, case_timeout=120, label="chk", total_timeout=3000)
+        _rekey_crashes(rc, "overflow-checks", scratch, "chk", {"property": PROP, "tier": tier, "seed": seed, "bin": "c19", "args": [], "flavor": "checked"})
+        checked.update(_layer_summary(rc))
+        if rc.cases == 0:
+            res.add_inconclusive("checked-layer-ran-nothing")
+        _merge(res, rc)
+    layers["overflow_checks_build"] = checked
+
     # ---- ASan over the same histories
     asan = {"built": False}
     try:
